@@ -479,7 +479,33 @@ fn gen_frame_raw(rng: &mut Rng, size: Option<usize>) -> Frame {
         None => rng.below(12),
     };
     let (bytes, kind): (Vec<u8>, &'static str) = match rng.below(20) {
-        0..=7 => (valid_frame(rng, target, pad, false), "valid"),
+        0..=6 => (valid_frame(rng, target, pad, false), "valid"),
+        7 => {
+            // the same document with the names of its top-level members spelled with JSON escapes
+            let v = valid_frame(rng, target, pad, false);
+            match serde_json::from_slice::<serde_json::Value>(&v) {
+                Ok(serde_json::Value::Object(o)) if !o.is_empty() => {
+                    let style = rng.below(3);
+                    let members: Vec<String> = o
+                        .iter()
+                        .map(|(k, val)| {
+                            let mut name = String::from("\"");
+                            for (i, c) in k.chars().enumerate() {
+                                if (style == 0 && i == 0) || style == 1 || (style == 2 && i + 1 == k.chars().count()) {
+                                    name.push_str(&format!("\\u{:04x}", c as u32));
+                                } else {
+                                    name.push(c);
+                                }
+                            }
+                            name.push('"');
+                            format!("{name}:{val}")
+                        })
+                        .collect();
+                    (format!("{{{}}}", members.join(",")).into_bytes(), "escaped-member-names")
+                }
+                _ => (v, "valid"),
+            }
+        }
         8 => (valid_frame(rng, target, pad, true), "ws-inside"),
         9 => {
             let mut v = rand_ws(rng, 4);
@@ -522,11 +548,18 @@ fn gen_frame_raw(rng: &mut Rng, size: Option<usize>) -> Frame {
         14 => {
             // two documents in one frame / trailing garbage
             let mut v = valid_frame(rng, target, pad, false);
-            match rng.below(4) {
+            match rng.below(7) {
                 0 => v.extend(valid_frame(rng, target, 0, false)),
                 1 => v.extend_from_slice(b"{}"),
                 2 => v.extend_from_slice(b" x"),
-                _ => v.extend_from_slice(b"]"),
+                3 => v.extend_from_slice(b"]"),
+                // one stray byte of any value (control characters, DEL, bytes above 0x7f) behind the document,
+                // or two of them
+                4 | 5 => v.push(rng.range(1, 255) as u8),
+                _ => {
+                    let b = *rng.pick(&[1u8, 2, 0x7f, 0x80, 0xff, 0x1f]);
+                    v.extend_from_slice(&[b, b]);
+                }
             }
             (v, "trailing-garbage")
         }
